@@ -107,9 +107,13 @@ def predictPart {N W} (L : Learner W) (w : W) (it : Item N) (part : Part) : Cont
   let frame := iloc it.data (it.idx part)
   ⟨it.idx part, frame.map (targetOf it.data), L.predict w (frame.map (featuresOf it.data))⟩
 
-structure Rec where
+/-- a stored prediction record; `s`, `d` are the names passed to `save_predictions` (a `RAMResults` entry is a
+`_PredictionsWrapper` that carries them; `HDDResults.load_predictions` re-labels with the registry names) -/
+structure Rec (N : Type) where
   c : Content
   stamp : Nat
+  s : N
+  d : N
   deriving DecidableEq, Repr
 
 structure SRec (W : Type) where
@@ -126,7 +130,7 @@ structure Cfg (N K : Type) where
   disk : Bool
 
 structure St (N K W : Type) where
-  recs : List (K × Rec)
+  recs : List (K × Rec N)
   strats : List (K × SRec W)
   master : Option (List N × List N)
   regS : List N
@@ -173,21 +177,27 @@ def callEst (fail : Option Nat) (c : Call N) (r : Run N K W) : Run N K W :=
   let r' := { r with calls := r.calls + 1, log := r.log ++ [c] }
   if fail = some (r.calls + 1) then { r' with err := some .inject } else r'
 
+/-- the store after `save_fitted_strategy`: the pickle is (over)written, then `_append_key` -/
+def writeStrat (cfg : Cfg N K) (it : Item N) (w : W) (st : St N K W) : St N K W :=
+  register it.s it.d { st with strats := put (cfg.skey it.s it.d it.fold) (SRec.mk w st.clock) st.strats,
+                               clock := st.clock + 1 }
+
+/-- the store after `save_predictions`: the record is (over)written, then `_append_key` -/
+def writeRec (cfg : Cfg N K) (it : Item N) (part : Part) (c : Content) (st : St N K W) : St N K W :=
+  register it.s it.d { st with recs := put (cfg.rkey it.s it.d part it.fold) (Rec.mk c st.clock it.s it.d) st.recs,
+                               clock := st.clock + 1 }
+
 /-- `results.save_fitted_strategy(strategy, dataset_name, cv_fold)` -/
 def saveStrat (cfg : Cfg N K) (it : Item N) (w : W) (r : Run N K W) : Run N K W :=
   if r.err.isSome then r else
   if cfg.disk then
-    let k := cfg.skey it.s it.d it.fold
-    let st1 : St N K W := { r.st with strats := put k (SRec.mk w r.st.clock) r.st.strats, clock := r.st.clock + 1 }
-    { r with st := register it.s it.d st1, wrStrats := r.wrStrats ++ [k] }
+    { r with st := writeStrat cfg it w r.st, wrStrats := r.wrStrats ++ [cfg.skey it.s it.d it.fold] }
   else { r with err := some .notImpl }
 
 /-- `results.save_predictions(...)` -/
 def savePred (cfg : Cfg N K) (it : Item N) (part : Part) (c : Content) (r : Run N K W) : Run N K W :=
   if r.err.isSome then r else
-  let k := cfg.rkey it.s it.d part it.fold
-  let st1 : St N K W := { r.st with recs := put k (Rec.mk c r.st.clock) r.st.recs, clock := r.st.clock + 1 }
-  { r with st := register it.s it.d st1, wrRecs := r.wrRecs ++ [k] }
+  { r with st := writeRec cfg it part c r.st, wrRecs := r.wrRecs ++ [cfg.rkey it.s it.d part it.fold] }
 
 /-- predict on one part, then save (`y_pred = strategy.predict(frame)` may raise before anything is saved) -/
 def predictSave (cfg : Cfg N K) (L : Learner W) (fail : Option Nat) (w : W) (it : Item N) (part : Part)
@@ -254,13 +264,26 @@ def fitPredict (cfg : Cfg N K) (L : Learner W) (o : Opts) (fail : Option Nat)
   if o.owF && !o.saveF then { Run.start st with err := some .value }
   else finish cfg (runItems cfg L o fail items (Run.start st))
 
-/-- `results.load_predictions(cv_fold, train_or_test)`: registry strategies × registry datasets -/
-def loadPredictions (cfg : Cfg N K) (st : St N K W) (fold : Nat) (part : Part) :
-    Except Err (List (N × N × Rec)) :=
-  (st.regS.flatMap (fun s => st.regD.map (fun d => (s, d)))).mapM (fun (s, d) =>
+/-- registry strategies × registry datasets (`BaseResults._iter`) -/
+def pairs (st : St N K W) : List (N × N) := st.regS.flatMap (fun s => st.regD.map (fun d => (s, d)))
+
+/-- read the records of the given (strategy, dataset) pairs; the first missing one raises -/
+def loadAll (cfg : Cfg N K) (st : St N K W) (fold : Nat) (part : Part) :
+    List (N × N) → Except Err (List (N × N × Rec N))
+  | [] => .ok []
+  | (s, d) :: t =>
     match get? (cfg.rkey s d part fold) st.recs with
-    | some r => .ok (s, d, r)
-    | none => .error .missing)
+    | none => .error .missing
+    | some r =>
+      match loadAll cfg st fold part t with
+      | .error e => .error e
+      | .ok rs => .ok ((if cfg.disk then (s, d, r) else (r.s, r.d, r)) :: rs)
+
+/-- `results.load_predictions(cv_fold, train_or_test)` (HDD: labelled with the registry names; RAM: the stored
+wrapper with the names it was saved under) -/
+def loadPredictions (cfg : Cfg N K) (st : St N K W) (fold : Nat) (part : Part) :
+    Except Err (List (N × N × Rec N)) :=
+  loadAll cfg st fold part (pairs st)
 
 /-! ### the work list -/
 
@@ -300,6 +323,11 @@ def runHistory (cfg : Cfg N K) (L : Learner W) (items : List (Item N)) :
   | st, rs :: t =>
     let r := runOne cfg L items st rs
     r :: runHistory cfg L items r.st t
+
+/-- the store after a history of runs -/
+def stateAfter (cfg : Cfg N K) (L : Learner W) (items : List (Item N)) (st : St N K W)
+    (specs : List RunSpec) : St N K W :=
+  specs.foldl (fun st rs => (runOne cfg L items st rs).st) st
 
 /-! ### concrete stores -/
 
